@@ -218,7 +218,8 @@ func ruleExecPipeline(c *Ctx) {
 			ok, why = false, "a success path runs the stages ["+strings.Join(seq, ",")+"] instead of each of "+strings.Join(stages, ",")+" once, in order"
 		}
 		// the returned rows derive from the last stage
-		if prev != nil && !p.Ret[0].Nil && !(p.Ret[0].T != nil && p.Ret[0].T.Op == "const" && p.Ret[0].T.Name == "nil") {
+		emptyFresh := p.Ret[0].T != nil && isFreshSliceTerm(p.Ret[0].T) && p.Ret[0].T.Op == "slice" && len(p.Ret[0].T.Args) == 4 && p.Ret[0].T.Args[2].String() == "c:0"
+		if prev != nil && !p.Ret[0].Nil && !emptyFresh && !(p.Ret[0].T != nil && p.Ret[0].T.Op == "const" && p.Ret[0].T.Name == "nil") {
 			if !p.Ret[0].T.Contains(func(x *Term) bool { return x.V == prev }) {
 				ok, why = false, "the result is "+avString(p.Ret[0])+", not cut from the ordering stage's output"
 			}
